@@ -5,11 +5,12 @@ part is OH/Props/C04Parser.lean once the parser model lands).
 Every model function returns `Except String α` with one `.error` per Rust panic site; "no panic" is
 "never `.error`".  Proved:
  * the time-domain iterator (`iter_range`, `state`, `next_change`) never panics and always terminates
-   (the run-time progress check of `collect` never fires) for ANY day level meeting `EnvOK` and any
-   bound `−1 day ≤ B ≤ TimeDelta::MAX − 1 day` (`C02A.iter_total`, `C02A.bounded_iter_total`);
+   (the run-time progress check of `collect` never fires) for ANY day level meeting `EnvOK` and ANY
+   interval-size bound — none, negative, zero, up to and beyond `TimeDelta::MAX`
+   (`C02A.bounded_iter_total`, `C02A.state_total`, `C02A.bounded_nextChange`);
    `consume` has a well-founded termination proof (no fuel);
- * outside that range of bounds the code is NOT total: `C02A.bound_overflow_panics`,
-   `C02A.bound_below_minus_one_day_diverges` (known finding D22-bound-range);
+   (the original code hung for `B < −1 day` and panicked for `B > TimeDelta::MAX − 1 day`: former finding
+   D22-bound-range, repaired in the repository, see the history note in `OH/Props/C02A.lean`);
  * `Schedule` iteration never hits `pre_yield`'s assert on any API-built schedule (C14 `iter_no_panic`);
  * `easter` never hits its two `expect`s for any integer year; `count_days_in_month`'s `expect` is
    unreachable on every representable day; `CompactCalendar` histories never panic (C15 `history`).
@@ -25,10 +26,15 @@ import OH.Proofs.CalendarEval
 namespace OH.Props.C04
 open OH.Model OH.Model.Cal OH.Props.C02
 
-theorem C04_iter_total_partial {ctx : Ctx} {e : Expr} (ok : DayLevelOK ctx e)
-    (hb : ∀ b, ctx.bound = some b → -nsPerDay ≤ b ∧ b + nsPerDay ≤ deltaMax) (frm to : Int) :
+/-- every window, every bound -/
+theorem C04_iter_total_partial {ctx : Ctx} {e : Expr} (ok : DayLevelOK ctx e) (frm to : Int) :
     ∃ out, iterRangeNaive ctx e frm to = .ok out :=
-  C02A.bounded_iter_total ok hb frm to
+  C02A.bounded_iter_total ok frm to
+
+/-- every instant, every bound -/
+theorem C04_state_total_partial {ctx : Ctx} {e : Expr} (ok : DayLevelOK ctx e) (t : Int) :
+    ∃ k, state ctx e t = .ok k :=
+  C02A.state_total ok t
 
 theorem C04_easter_no_panic (y : Int) : ∃ r, easter y = .ok r := OH.Props.Calendar.easter_no_panic y
 
